@@ -41,6 +41,14 @@ the unit of work), plus
 seeded random histories (6-16 ops) on up to four objects with a second session (SQL-free
 ops only), SAVEPOINTs, cascades ``save-update, merge`` and ``all, delete-orphan``.
 
+Listener presence: the library specialises on it (``session.dispatch.<event> or None``), so a
+share of all histories (exhaustive, deep, leave-and-return, random) is run a second time in a
+session with NO lifecycle listener, or only a subset: the executed operations of the fully
+instrumented run (which the event-driven shadow has judged) are replayed, and after every
+operation the five state predicates, ``was_deleted``, the owning session, identity-map
+membership, ``obj in session`` and which operations raise must be identical; the registered
+subset must see exactly its part of the reference event stream.
+
 Guards: operations may raise the documented refusals (InvalidRequestError & co,
 IntegrityError for a re-INSERT of an existing key, StaleDataError / ObjectDeletedError for
 objects made detached without a row); the state check runs regardless.  After a violation
@@ -82,7 +90,8 @@ META = {
                 "ev_pending_to_persistent", "ev_detached_to_persistent", "ev_loaded_as_persistent",
                 "ev_persistent_to_deleted", "ev_deleted_to_persistent", "ev_deleted_to_detached",
                 "ev_persistent_to_detached", "eventless_make_transient", "eventless_make_transient_to_detached",
-                "post_op_state_checks", "leave_and_return_sequences", "identity_map_membership_checks"],
+                "post_op_state_checks", "leave_and_return_sequences", "identity_map_membership_checks",
+                "no_listener_histories", "listener_subset_histories", "partial_listener_ops_compared"],
     "assumptions": ["transition table transcribed correctly from the two documentation files named above"],
 }
 
@@ -122,6 +131,8 @@ class Tracker:
         self.chain = {}             # id -> states visited in the current op
         self.nevents = 0
         self.nviol = 0
+        self.passive = False        # True in a listener-less / partial-listener world: events only logged
+        self.evlog = []             # (event, instance name) of the operation in progress
         self.op = "setup"           # class of the operation in progress (part of the mechanism)
         self.tainted = set()        # ids of instances already reported: judged no further
         self.was_deleted = set()    # ids that entered 'deleted' and were not restored / made transient
@@ -156,6 +167,9 @@ class Tracker:
 
     # called from the listeners
     def on_event(self, name, o, session):
+        self.evlog.append((name, self.nm(o)))
+        if self.passive:
+            return
         self.nevents += 1
         self.ctx.count("events_judged")
         self.ctx.count("ev_" + name)
@@ -209,6 +223,8 @@ class Tracker:
             self.shadow[id(o)] = to
 
     def after_op(self):
+        if self.passive:
+            return
         self.chain.clear()
         for i, o in self.objs.items():
             if i in self.tainted:
@@ -246,7 +262,7 @@ class Tracker:
 class World:
     """One case: sessions, recorder, tracker, named objects."""
 
-    def __init__(self, ctx, rig, config, cascade, expire_on_commit=True):
+    def __init__(self, ctx, rig, config, cascade, expire_on_commit=True, listen=None):
         from sqlalchemy import inspect
 
         from vf.gen.ormrig_gj import LifeRecorder
@@ -257,10 +273,28 @@ class World:
         self.desc = {"config": config, "cascade": cascade, "expire_on_commit": expire_on_commit, "ops": []}
         self.tr = Tracker(ctx, self.desc)
         self.rec = LifeRecorder(on_event=self.tr.on_event)
+        self.listen = listen        # None: all ten events; else the subset (possibly empty) that gets a listener
+        if listen is not None:
+            self.tr.passive = True
+            self.rec.only = set(listen)
+        self.record = []            # per executed op: [name, obj, raised, rolled_back, snapshot, events]
         self.s = rig.session(expire_on_commit=expire_on_commit)
         self.s2 = None
         self.tr.sessions.append(self.s)
         self.rec.attach(self.s)
+
+    def snapshot(self):
+        """State predicates of the named objects (what an application can see without events)."""
+        out = {}
+        for name, o in self.o.items():
+            st = self.inspect(o)
+            owner = "s" if st.session is self.s else ("s2" if self.s2 is not None and st.session is self.s2 else None)
+            sess = self.s if owner == "s" else self.s2 if owner == "s2" else None
+            mapped = [nm for nm, ss in (("s", self.s), ("s2", self.s2)) if ss is not None and st.key is not None
+                      and ss.identity_map.get(st.key) is o]
+            out[name] = [list(self.tr.flags(o)), bool(st.was_deleted), owner, mapped,
+                         bool(sess is not None and o in sess)]
+        return out
         self.nested = []
         self.o = {}
 
@@ -305,6 +339,7 @@ def setup(w, config):
         # loaded, row exists, not linked to each other (P(2) has no children, C(2) no parent)
         o1 = w.s.get(P, 2)
         o2 = w.s.get(C, 2)
+        w.tr.objs[id(o1)], w.tr.objs[id(o2)] = o1, o2
         w.tr.names[id(o1)] = "o1"
         w.tr.names[id(o2)] = "o2"
     else:
@@ -312,6 +347,7 @@ def setup(w, config):
         o2 = w.s.get(C, 1)
         o2.parent
         w.s.commit() if config == "loaded-expired" else None
+        w.tr.objs[id(o1)], w.tr.objs[id(o2)] = o1, o2
         w.tr.names[id(o1)] = "o1"
         w.tr.names[id(o2)] = "o2"
     w.o = {"o1": o1, "o2": o2}
@@ -343,6 +379,8 @@ def apply_op(w, op, expected_exc):
     w.desc["ops"].append(list(op))
     tr.op = {"nested_rollback": "rollback", "delete_flush": "delete", "s2_add": "add", "s2_expunge": "expunge",
              "s2_close": "close"}.get(name, name)
+    del tr.evlog[:]
+    raised = rolled = None
     try:
         if name in ("add", "delete", "delete_flush", "s2_add") and o is not None:
             st_o = w.inspect(o)
@@ -452,7 +490,9 @@ def apply_op(w, op, expected_exc):
         w.ctx.count("expected_exceptions")
         w.ctx.seen("exceptions", type(e).__name__)
         w.desc["ops"][-1] = list(op) + ["raised " + type(e).__name__]
+        raised = type(e).__name__
         if not s.is_active:
+            rolled = True
             tr.chain.clear()
             tr.op = "rollback"
             w.desc["ops"].append(["rollback-after-error", None])
@@ -485,6 +525,154 @@ def apply_op(w, op, expected_exc):
                         break
             w.ctx.count("post_op_state_checks")
     tr.after_op()
+    w.record.append([name, on, raised, rolled, w.snapshot(), list(tr.evlog)])
+
+
+def raw_apply(w, name, on, expected_exc):
+    """The same operations without the generator's guards (they were applied when the
+    reference world ran): used to replay the *executed* ops of a reference history in a world
+    with no / only some lifecycle listeners."""
+    from sqlalchemy import select
+    from sqlalchemy.orm import make_transient, make_transient_to_detached
+
+    s = w.s
+    o = w.o.get(on) if on else None
+    del w.tr.evlog[:]
+    raised = rolled = None
+    try:
+        if name == "add":
+            s.add(o)
+        elif name == "delete":
+            s.delete(o)
+        elif name == "delete_flush":
+            s.delete(o)
+            s.flush()
+        elif name == "expunge":
+            s.expunge(o)
+        elif name == "merge":
+            s.merge(o)
+        elif name == "make_transient":
+            make_transient(o)
+        elif name == "mttd":
+            make_transient_to_detached(o)
+        elif name == "modify":
+            if type(o) is w.P:
+                o.name = "m%d" % (len(w.record) + 1)
+            else:
+                o.v = "m%d" % (len(w.record) + 1)
+        elif name == "unlink":
+            if type(o) is w.C:
+                o.parent = None
+        elif name == "refresh":
+            s.refresh(o)
+        elif name == "expire":
+            s.expire(o)
+        elif name == "flush":
+            s.flush()
+        elif name == "commit":
+            s.commit()
+            w.nested.clear()
+        elif name == "rollback":
+            w.nested.clear()
+            s.rollback()
+        elif name == "close":
+            s.close()
+            w.nested.clear()
+        elif name == "expunge_all":
+            s.expunge_all()
+        elif name == "begin_nested":
+            if len(w.nested) < 2:
+                w.nested.append(s.begin_nested())
+        elif name == "nested_rollback":
+            if w.nested:
+                w.nested.pop().rollback()
+        elif name == "nested_commit":
+            if w.nested:
+                w.nested.pop().commit()
+        elif name == "query":
+            s.scalars(select(w.P)).all()
+            s.scalars(select(w.C)).all()
+        elif name == "s2_add":
+            w.second_session().add(o)
+        elif name == "s2_expunge":
+            w.second_session().expunge(o)
+        elif name == "s2_close":
+            w.second_session().close()
+        else:
+            raise RuntimeError("unknown op " + name)
+    except expected_exc as e:
+        raised = type(e).__name__
+        if not s.is_active:
+            rolled = True
+            w.nested.clear()
+            try:
+                s.rollback()
+            except expected_exc:
+                raised += "+rollback-raised"
+    w.record.append([name, on, raised, rolled, w.snapshot(), list(w.tr.evlog)])
+
+
+def run_partial_listeners(ctx, rig, ref, config, cascade, expected_exc, listen, extra_objs, link4, expire_on_commit):
+    """Input class: a session with NO lifecycle listener, or only some.  The library
+    specialises on listener presence (``session.dispatch.<event> or None``); what an
+    application can observe without events - the five state predicates, ``was_deleted``, session
+    membership, identity-map membership, which operations raise - must be the same as in the
+    fully instrumented reference world (which the event-driven shadow has judged), and the
+    registered subset must see exactly its part of the reference event stream."""
+    rig.wipe()
+    seed(rig)
+    w = World(ctx, rig, config, cascade, expire_on_commit, listen=listen)
+    sub = set(listen)
+    try:
+        setup(w, config)
+        make_extra(w, extra_objs, link4)
+        for k, (name, on, raised, rolled, snap, events) in enumerate(ref.record):
+            raw_apply(w, name, on, expected_exc)
+            got = w.record[-1]
+            ctx.count("partial_listener_ops_compared")
+            where = {"config": config, "cascade": cascade, "expire_on_commit": expire_on_commit,
+                     "listeners": sorted(sub), "ops": [r[:3] for r in ref.record[:k + 1]]}
+            kind = "no-listeners" if not sub else "listener-subset"
+            if got[2] != raised:
+                ctx.violation(f"{kind}:operation-outcome-differs:{name}",
+                              f"{name}({on}) {'raised ' + str(raised) if raised else 'succeeded'} with all listeners, "
+                              f"{'raised ' + str(got[2]) if got[2] else 'succeeded'} with listeners {sorted(sub)}", where)
+                break
+            diff = [(n, snap[n], got[4].get(n)) for n in snap if snap[n] != got[4].get(n)]
+            if diff:
+                n, a, b = diff[0]
+                part = ("flags", "was_deleted", "session", "identity-map", "in-session")[
+                    next(i for i in range(5) if a[i] != b[i])]
+                ctx.violation(f"{kind}:{part}-differs-from-instrumented-run:after-{name}",
+                              f"{n} after {name}({on}): all listeners -> {a}, listeners {sorted(sub)} -> {b} "
+                              f"[flags, was_deleted, session, identity_map, in session]",
+                              dict(where, obj=n, reference=a, observed=b))
+                break
+            want = [e for e in events if e[0] in sub]
+            if got[5] != want:
+                ctx.violation(f"{kind}:event-stream-differs-from-instrumented-run:{name}",
+                              f"{name}({on}): registered subset saw {got[5]}, the reference stream restricted to it is {want}",
+                              dict(where, reference=want, observed=got[5]))
+                break
+        ctx.count("partial_listener_histories")
+        ctx.count("no_listener_histories" if not sub else "listener_subset_histories")
+        ctx.case({"config": config, "cascade": cascade, "listen": sorted(sub), "ops": [r[:2] for r in ref.record]},
+                 nontrivial=len(ref.record) >= 2)
+    finally:
+        w.finish()
+
+
+def make_extra(w, extra_objs, link4):
+    for k in range(extra_objs):
+        if k == 0:
+            x = w.P()
+            x.id, x.name = 12, "n12"
+        else:
+            x = w.C()
+            x.id, x.v = 12, "v12"
+            x.parent = w.o["o1"] if link4 else None
+        w.tr.track(x, f"o{3 + k}")
+        w.o[f"o{3 + k}"] = x
 
 
 EXH_ALPHABET = [
@@ -504,31 +692,28 @@ NO_OBJ = {"flush", "commit", "rollback", "close", "expunge_all", "begin_nested",
           "query", "s2_close"}
 
 
-def run_case(ctx, rig, config, cascade, ops, expected_exc, extra_objs=0, kind="exh", expire_on_commit=True):
+def run_case(ctx, rig, config, cascade, ops, expected_exc, extra_objs=0, kind="exh", expire_on_commit=True,
+             listen=None):
+    """listen: None -> only the fully instrumented world; a collection of event names (may be
+    empty) -> afterwards the executed ops are replayed in a world that registers just those."""
     rig.wipe()
     seed(rig)
     w = World(ctx, rig, config, cascade, expire_on_commit)
+    link4 = ctx.rng.random() < 0.5 if extra_objs > 1 else False
     try:
         setup(w, config)
-        for k in range(extra_objs):
-            if k == 0:
-                x = w.P()
-                x.id, x.name = 12, "n12"
-            else:
-                x = w.C()
-                x.id, x.v = 12, "v12"
-                x.parent = w.o["o1"] if ctx.rng.random() < 0.5 else None
-            w.tr.track(x, f"o{3 + k}")
-            w.o[f"o{3 + k}"] = x
+        make_extra(w, extra_objs, link4)
         w.tr.after_op() if config not in ("new", "single") else None
         for op in ops:
             apply_op(w, op, expected_exc)
             if w.tr.nviol:
                 break      # the session may be inconsistent from here on: one report per history
         ctx.case({"config": config, "cascade": cascade, "ops": [list(o) for o in ops]}, nontrivial=w.tr.nevents >= 2)
-        return w
     finally:
         w.finish()
+    if listen is not None and not w.tr.nviol and w.record:
+        run_partial_listeners(ctx, rig, w, config, cascade, expected_exc, listen, extra_objs, link4, expire_on_commit)
+    return w
 
 
 def run(ctx):
@@ -567,7 +752,8 @@ def run(ctx):
                     if not ctx.budget_ok():
                         break
                     cname = "plain" if idx % 3 else "orphan"
-                    w = run_case(ctx, rigs[cname], config, cname, seq, expected_exc)
+                    w = run_case(ctx, rigs[cname], config, cname, seq, expected_exc,
+                                 listen=() if (idx // ctx.nshards) % 4 == 0 else None)
                     ctx.count("exhaustive_sequences")
                     if sampled < 2 and w.tr.nevents >= 4:
                         ctx.sample({"config": config, "cascade": cname, "ops": [list(o) for o in seq]})
@@ -587,8 +773,11 @@ def run(ctx):
             for _ in range(rng.randint(6, 16)):
                 n = rng.choices(names, weights)[0]
                 ops.append((n, None if n in NO_OBJ else rng.choice(onames)))
+            lk = rng.random()
+            listen = None if lk < 0.34 else () if lk < 0.6 else tuple(
+                e for e in R.LIFECYCLE_EVENTS if rng.random() < 0.5)
             w = run_case(ctx, rigs[cname], config, cname, ops, expected_exc, extra_objs=extra, kind="rand",
-                         expire_on_commit=rng.random() < 0.6)
+                         expire_on_commit=rng.random() < 0.6, listen=listen)
             ctx.count("random_histories")
             if sampled < 4 and w.tr.nevents >= 6:
                 ctx.sample({"config": config, "cascade": cname, "ops": [list(o) for o in ops]})
@@ -605,7 +794,8 @@ def run(ctx):
                     break
                 if seq[0][0] != "add":
                     continue      # every other first op is a refusal on a transient object
-                run_case(ctx, rigs["plain"], "single", "plain", seq, expected_exc, expire_on_commit=bool(idx // 8 % 2))
+                run_case(ctx, rigs["plain"], "single", "plain", seq, expected_exc, expire_on_commit=bool(idx // 8 % 2),
+                         listen=() if (idx // ctx.nshards) % 3 == 0 else None)
                 ctx.count("exhaustive_sequences")
                 ctx.count("deep_sequences")
         # ---- part A3: leave-and-return histories --------------------------------------
@@ -636,8 +826,10 @@ def run(ctx):
                             if not ctx.budget_ok():
                                 break
                             seq = [(n, None if n in NO_OBJ else "o1") for n in pre + lv + bk + fin]
+                            k3 = (idx // ctx.nshards) % 4
                             run_case(ctx, rigs["plain"], config, "plain", seq, expected_exc,
-                                     expire_on_commit=bool(idx // 16 % 2))
+                                     expire_on_commit=bool(idx // 16 % 2),
+                                     listen=() if k3 == 0 else R.LIFECYCLE_EVENTS[k3::3] if k3 == 1 else None)
                             ctx.count("exhaustive_sequences")
                             ctx.count("leave_and_return_sequences")
     finally:
